@@ -472,6 +472,10 @@ def numeric_cases(rng):
             "7922816251426433759354395033.5", "0.0000000000000000000000000001", "-0.0000000000000000000000000001",
             "7.9228162514264337593543950335", "79,228,162,514,264,337,593,543,950,335", "1,000,000.000000000000000000000",
             "4294967295", "4294967296", "18446744073709551615", "18446744073709551616", "0.5", ".5", "5.", "00012", "1,234", "12,345,678.90"]
+    # literals that no decimal can hold (more than 28 places, 30 and more integral digits): rejected with a diagnostic
+    lits += ["0.00000000000000000000000000001", "1.23456789012345678901234567890123", "0." + "0" * 40 + "1",
+             "1" + "0" * 29, "9" * 30, "-" + "9" * 31 + ".5", "123456789012345678901234567890.12345678901234567890",
+             "79228162514264337593543950336", "7.92281625142643375935439503351"]
     for i, l in enumerate(lits):
         out.append(("lit%d" % i, txn("A  %s USD" % l, "B"), True))
         out.append(("lit%d-bal" % i, txn("A  = %s USD" % l, "B"), True))
@@ -524,6 +528,10 @@ def numeric_cases(rng):
     out.append(("over-rate", txn("A  %d ACME @ %d USD" % (MAX96, MAX96), "B"), False))
     out.append(("over-implied", txn("A  %d AAA" % MAX96, "B  -0.0000000000000000000000000001 BBB"), False))
     out.append(("over-div", txn("A  (%d USD / 0.1)" % MAX96, "B"), False))
+    # an assigned amount whose difference to the balance does not fit: outside the range, but whatever happens is a diagnostic
+    # or rust_decimal's own overflow panic - never another crash
+    out.append(("over-assign", txn("A  -1 ZWL", "B") + "\n2024/01/02 reval\n    A  = %d ZWL\n    B\n" % MAX96, True))
+    out.append(("over-assign2", txn("A  1 ZWL", "B") + "\n2024/01/02 reval\n    A  = -%d ZWL\n    B\n" % MAX96, True))
     return out
 
 
